@@ -311,6 +311,42 @@ def _g1(ctx: Context, counter_sites) -> None:
             "attribute itself: counter and nonce can diverge",
             ctx.loc(f, n),
         )
+        # ... and it is the counter as it is NOW: a local that was set to self.<ctr> earlier (`counter = self.c2a_counter` before
+        # the loop) still names the attribute as a provenance term, but it is a snapshot - if the counter is advanced
+        # between the snapshot and this use, the same nonce is used again
+        if direct:
+            du = T.du(cfg)
+            stale = None
+            for x in [y for a in c.args for y in walk_expr(a) if isinstance(y, ast.Name) and y.id in du.local_names]:
+                if strip_sites(T.of(cfg, n, x)) != ("attr", ("param", "self"), ctr):
+                    continue
+                at, name, hops = n.id, x.id, 0
+                while hops < 8:
+                    hops += 1
+                    rd = du.reaching(at, name)
+                    if len(rd) != 1 or rd[0][1].kind != "assign" or rd[0][1].path or rd[0][1].value is None:
+                        break
+                    dn, d = rd[0]
+                    # the counter advanced between this definition and the place its value is used?
+                    between = [i for i in inc_ids if i != dn and i in cfg.reachable_from(dn) and at in cfg.reachable_from(i, avoid_nodes={dn})]
+                    if between:
+                        stale = (dn, between[0])
+                        break
+                    if isinstance(d.value, ast.Name) and d.value.id in du.local_names:
+                        at, name = dn, d.value.id
+                        continue
+                    break
+                if stale:
+                    break
+            ck.check(
+                "C06.G1",
+                stale is None,
+                f"{short}: the nonce is built from the counter as it is at the cipher call, not from an earlier snapshot",
+                f"{ctx.fkey(f)}:nonce-from-stale-copy:{ctr}",
+                f"{short}: the nonce of the {kind} is built from a local copy of self.{ctr} taken at `{cfg.nodes[stale[0]].text()[:50] if stale else ''}`, but the counter is "
+                f"advanced (`{cfg.nodes[stale[1]].text()[:40] if stale else ''}`) between that copy and its use: several messages are sealed with the same nonce",
+                ctx.loc(f, n),
+            )
         done += 1
     ck.require_min("C06.G1", "counter-nonce cipher call sites", done, 7)
 
